@@ -306,6 +306,22 @@ Definition items_of (nd : node) (fs : list (N * N * N)) (qs : list rpath) : list
 Definition expects_of (nd : node) (fs : list (N * N * N)) (qs : list rpath) : list expect :=
   expand expect_of (fun p code => EStatus p code) nd fs qs.
 
+(** a subscription report carries only what changed since the last one ([should_report_attr]:
+    the changed-attribute table holds attributes, or whole clusters) *)
+Definition item_path (it : item) : path :=
+  match it with
+  | IOne (AWhole p _) | IOne (AMarker p _) | IOne (AElem p _ _) | IOne (AStatus p _ _) => p
+  | IOne _ => (0, 0, 0)
+  | IArr p _ _ _ _ => p
+  end.
+
+Definition changed_match (chs : list rpath) (p : path) : bool :=
+  let '(e, c_, a) := p in
+  existsb (fun q => let '(qe, qc, qa) := q in omatch qe e && omatch qc c_ && omatch qa a) chs.
+
+Definition report_items_of (nd : node) (qs chs : list rpath) : list item :=
+  filter (fun it => changed_match chs (item_path it)) (items_of nd [] qs).
+
 (** events of the synthetic node: every cluster declares the events 1, 2, 3 *)
 Record evspec := mkEvspec { es_path : path; es_prio : N; es_len : N; es_ts : N }.
 
